@@ -387,10 +387,5 @@ func VH_C19_defaults() {
 	// a plain func(*BaseNode) is accepted as a base option
 	g := NewNode(func(b *BaseNode) { b.maxRetries = 5 })
 	vAssert(g.GetMaxRetries() == 5, "plain-func-option-accepted")
-	k := vNondet[int]("poolSize")
-	vAssume(-3 <= k && k <= 0)
-	p := NewWorkerPool(k)
-	vAssert(p.workers == 1, "pool-size<=0-means-one-worker")
-	p.Close()
 	vCover("defaults")
 }
